@@ -29,15 +29,23 @@ term_trip!(term_trip_u64__complete, u64);
 
 /// what comes back from the wire for a wide integer is a big integer of at most 8 digits: `integer_value` (the one
 /// reader every integer deserializer goes through) returns exactly its value.  8 symbolic digits (leading zero
-/// digits allowed) cover every magnitude below 2^64.
+/// digits allowed, every digit count 1..=8) cover every magnitude below 2^64 in every form.
 #[kani::proof]
 #[kani::unwind(12)]
 #[kani::stub(alloc::fmt::format, fmt_stub)]
 fn bigint_form_is_read_by_value__complete() {
     let d: [u8; 8] = kani::any();
     let neg: bool = kani::any();
-    let term = OwnedTerm::BigInt(BigInt { sign: if neg { Sign::Negative } else { Sign::Positive }, digits: vec![d[0], d[1], d[2], d[3], d[4], d[5], d[6], d[7]] });
-    let m: u128 = u64::from_le_bytes(d) as u128;
+    // every digit count the wire can deliver for a magnitude below 2^64 (1..=8; non-minimal forms included)
+    let n: usize = kani::any();
+    kani::assume(n >= 1 && n <= 8);
+    let mut digits: Vec<u8> = Vec::with_capacity(8);
+    let mut k = 0;
+    while k < 8 { if k < n { digits.push(d[k]); } k += 1; }
+    let term = OwnedTerm::BigInt(BigInt { sign: if neg { Sign::Negative } else { Sign::Positive }, digits });
+    let mut m: u128 = 0;
+    let mut k = 0;
+    while k < 8 { if k < n { m |= (d[k] as u128) << (8 * k); } k += 1; }
     let val: i128 = if neg { -(m as i128) } else { m as i128 };
     assert!(integer_value(&term) == Some(val));
     std::mem::forget(term);
@@ -50,8 +58,16 @@ fn bigint_form_is_read_by_value__complete() {
 fn bigint_form_from_term_i64__complete() {
     let d: [u8; 8] = kani::any();
     let neg: bool = kani::any();
-    let term = OwnedTerm::BigInt(BigInt { sign: if neg { Sign::Negative } else { Sign::Positive }, digits: vec![d[0], d[1], d[2], d[3], d[4], d[5], d[6], d[7]] });
-    let m: u128 = u64::from_le_bytes(d) as u128;
+    // every digit count the wire can deliver for a magnitude below 2^64 (1..=8; non-minimal forms included)
+    let n: usize = kani::any();
+    kani::assume(n >= 1 && n <= 8);
+    let mut digits: Vec<u8> = Vec::with_capacity(8);
+    let mut k = 0;
+    while k < 8 { if k < n { digits.push(d[k]); } k += 1; }
+    let term = OwnedTerm::BigInt(BigInt { sign: if neg { Sign::Negative } else { Sign::Positive }, digits });
+    let mut m: u128 = 0;
+    let mut k = 0;
+    while k < 8 { if k < n { m |= (d[k] as u128) << (8 * k); } k += 1; }
     let val: i128 = if neg { -(m as i128) } else { m as i128 };
     let r = crate::from_term::<i64>(&term);
     match &r { Ok(x) => assert!(*x as i128 == val), Err(_) => assert!(val < i64::MIN as i128 || val > i64::MAX as i128) }
@@ -65,8 +81,16 @@ fn bigint_form_from_term_i64__complete() {
 fn bigint_form_from_term_u64__complete() {
     let d: [u8; 8] = kani::any();
     let neg: bool = kani::any();
-    let term = OwnedTerm::BigInt(BigInt { sign: if neg { Sign::Negative } else { Sign::Positive }, digits: vec![d[0], d[1], d[2], d[3], d[4], d[5], d[6], d[7]] });
-    let m: u128 = u64::from_le_bytes(d) as u128;
+    // every digit count the wire can deliver for a magnitude below 2^64 (1..=8; non-minimal forms included)
+    let n: usize = kani::any();
+    kani::assume(n >= 1 && n <= 8);
+    let mut digits: Vec<u8> = Vec::with_capacity(8);
+    let mut k = 0;
+    while k < 8 { if k < n { digits.push(d[k]); } k += 1; }
+    let term = OwnedTerm::BigInt(BigInt { sign: if neg { Sign::Negative } else { Sign::Positive }, digits });
+    let mut m: u128 = 0;
+    let mut k = 0;
+    while k < 8 { if k < n { m |= (d[k] as u128) << (8 * k); } k += 1; }
     let val: i128 = if neg { -(m as i128) } else { m as i128 };
     let r = crate::from_term::<u64>(&term);
     match &r { Ok(x) => assert!(*x as i128 == val), Err(_) => assert!(val < 0 || val > u64::MAX as i128) }
